@@ -250,7 +250,7 @@ func init() {
 			"allocation bound: ΔTotalAlloc <= 8 KiB + 64·len + 3·65536, ΔMallocs <= 256 + 4·len, measured with GOMAXPROCS=1 and no other goroutine",
 			"work bound for inputs of 4096 octets and more: process CPU time (getrusage) of one call <= 50 ms + 5 µs·len, best of three runs — about 60× the normal cost, so only super-linear behaviour exceeds it",
 		},
-		Oracles:      map[string]func(*core.Ctx, *core.Case){"cold-concurrent": coldConcurrent, "total": c01Total, "meter": c01Meter},
+		Oracles:      map[string]func(*core.Ctx, *core.Case){"cold-entries": coldEntries, "cold-concurrent": coldConcurrent, "total": c01Total, "meter": c01Meter},
 		StallSeconds: 30,
 	}
 	p.Floors = func(tier string, cov map[string]map[string]int64, cnt map[string]int64) []string {
@@ -574,6 +574,7 @@ func init() {
 		}})
 		_ = bytes.Equal
 		us = append(us, coldUnits(tier, "nas.Message", "decode")...)
+		us = append(us, coldEntryUnits(tier, "nas.Message", "codec")...)
 		return us
 	}
 	core.Register(p)
